@@ -42,7 +42,8 @@ class ConcMixin(object):
         except (Exception, core.CaseTimeout) as why:
             return dict(spec=fam, cin=concrt.scenario_coq(scn),
                         cobs='{| co_events := []; co_wire := []; co_final := []; '
-                             'co_parse_ok := false; co_violations := 1%nat; co_fired := 0%nat |}',
+                             'co_parse_ok := false; co_violations := 1%nat; co_fired := 0%nat; '
+                             'co_conn := OPEN; co_inv := (9, 9, 9)%nat |}',
                         meta=dict(conc=fam, scenario=_plain(scn), seed=seed, line_p=line_p,
                                   harness_error=repr(why), profile='conc:' + fam, steps=[]))
         return dict(spec=fam, cin=concrt.scenario_coq(scn), cobs=obs,
